@@ -1,3 +1,9 @@
----- MODULE MC_UnionFindAbs ----
+---------------------------- MODULE MC_UnionFindAbs ----------------------------
+(* Model of UnionFindAbs for TLC: arguments restricted to a < b (find: a = b) to keep req small. *)
 EXTENDS UnionFindAbs
-====
+MCNext == \E c \in Clients : \/ \E op \in {"u", "s"}, a, b \in Node : a < b /\ Call(c, op, a, b)
+                             \/ \E a \in Node : Call(c, "f", a, a)
+                             \/ Lin(c)
+                             \/ \E r \in Node : Ret(c, r)
+MCSpec == AInit /\ [][MCNext]_avars
+=============================================================================
